@@ -107,6 +107,8 @@ func main() {
 			total += genAlias(out, rng, 20000)
 			total += genLongWarrior(out, rng, 5000)
 			total += genManyResets(out, rng, 200)
+			total += genExtremes(out, rng, 20000)
+			total += genWild(out, rng, 5000)
 		} else {
 			total += genAPI(out, rng, 3, 2000)
 			total += genLifeCycle(out, rng, 600)
@@ -115,6 +117,8 @@ func main() {
 			total += genAlias(out, rng, 800)
 			total += genLongWarrior(out, rng, 300)
 			total += genManyResets(out, rng, 12)
+			total += genExtremes(out, rng, 700)
+			total += genWild(out, rng, 300)
 		}
 	case "config":
 		total += genConfig(out, rng, cnt(300, 5000))
